@@ -93,21 +93,26 @@ async def process_resource_event(
             posting.event_queue_var.set(event_queue)  # till the end of this object's task.
 
             # [Pre-]populate the indices. This must be lightweight.
-            await indexing.index_resource(
-                registry=registry,
-                indexers=indexers,
-                settings=settings,
-                resource=resource,
-                raw_event=raw_event,
-                body=body,
-                memo=memory.memo,
-                memory=memory.indexing_memory,
-                logger=terse_logger,
-            )
+            # Unblock the operator's readiness for this object in any case, even if the indexing
+            # has failed unexpectedly (e.g. in the filters): otherwise, the toggle stays forever,
+            # and no object of any kind is ever handled --- with only a logged error as a hint.
+            try:
+                await indexing.index_resource(
+                    registry=registry,
+                    indexers=indexers,
+                    settings=settings,
+                    resource=resource,
+                    raw_event=raw_event,
+                    body=body,
+                    memo=memory.memo,
+                    memory=memory.indexing_memory,
+                    logger=terse_logger,
+                )
+            finally:
+                if operator_indexed is not None and resource_indexed is not None:
+                    await operator_indexed.drop_toggle(resource_indexed)
 
             # Wait for all other individual resources and all other resource kinds' lists to finish.
-            if operator_indexed is not None and resource_indexed is not None:
-                await operator_indexed.drop_toggle(resource_indexed)
             if operator_indexed is not None:
                 await operator_indexed.wait_for(True)  # other resource kinds & objects.
 
@@ -154,6 +159,10 @@ async def process_resource_event(
                     remaining_patch = patches.Patch(fns=carried_fns) if carried_fns else None
                 memory.remaining_patch = remaining_patch
                 return resource_version
+
+        # A throttled (skipped) cycle does no indexing; it must not hold the readiness either.
+        elif operator_indexed is not None and resource_indexed is not None:
+            await operator_indexed.drop_toggle(resource_indexed)
     return None
 
 
